@@ -3,8 +3,10 @@ package vx
 import (
 	"fmt"
 	"os"
+	"path/filepath"
 	"sync/atomic"
 	"syscall"
+	"time"
 	"unsafe"
 )
 
@@ -26,7 +28,23 @@ func shmCreate(bits uint) (*shmTable, error) {
 	if st, err := os.Stat(dir); err != nil || !st.IsDir() {
 		dir = os.TempDir()
 	}
-	f, err := os.CreateTemp(dir, "vx-visited-*")
+	// visited sets of runs that were killed before they could clean up: the
+	// file name carries the owner's pid
+	if old, err := filepath.Glob(filepath.Join(dir, "vx-visited-*")); err == nil {
+		for _, o := range old {
+			var pid int
+			if _, err := fmt.Sscanf(filepath.Base(o), "vx-visited-%d-", &pid); err != nil || pid <= 0 {
+				if st, err := os.Stat(o); err == nil && time.Since(st.ModTime()) > 2*time.Hour {
+					os.Remove(o)
+				}
+				continue
+			}
+			if _, err := os.Stat(fmt.Sprintf("/proc/%d", pid)); err != nil {
+				os.Remove(o)
+			}
+		}
+	}
+	f, err := os.CreateTemp(dir, fmt.Sprintf("vx-visited-%d-*", os.Getpid()))
 	if err != nil {
 		return nil, err
 	}
